@@ -9,13 +9,10 @@ namespace CountingSpec
 section
 variable {ρ : Type}
 
-/-- the full chunks of size `n` of `l`, in order (`fuel` bounds the number of chunks; `fullChunks`
-supplies `l.length`, which is always enough) -/
-def chunksFuel (n : Nat) : Nat → List ρ → List (List ρ)
-  | 0, _ => []
-  | fuel + 1, l => if n ≤ l.length then l.take n :: chunksFuel n fuel (l.drop n) else []
-
-def fullChunks (n : Nat) (l : List ρ) : List (List ρ) := chunksFuel n l.length l
+/-- the full chunks of size `n` of `l`: chunk number `i` (from 0) is rows `i*n+1 … (i+1)*n`;
+there are `⌊|l| / n⌋` of them, so fewer than `n` trailing rows produce nothing -/
+def fullChunks (n : Nat) (l : List ρ) : List (List ρ) :=
+  (List.range (l.length / n)).map fun i => (l.drop (i * n)).take n
 
 variable {σ : Type} [DecidableEq σ]
 
